@@ -29,6 +29,9 @@ type SimContext struct {
 	HardCap int64
 	HitCap  bool
 
+	// OnFire, if set, runs at the instant the cancellation fires.
+	OnFire func()
+
 	// PanicAfter > 0: a poll made more than PanicAfter polls after the
 	// cancellation panics with RunawayPanic (the script ignores the
 	// context; this is the only way left to get control back).
@@ -79,6 +82,9 @@ func (c *SimContext) fire() {
 		c.err = context.Canceled
 	}
 	close(c.done)
+	if c.OnFire != nil {
+		c.OnFire()
+	}
 }
 
 // Cancel fires the cancellation now (e.g. from inside a host function).
